@@ -4,6 +4,7 @@ import petl.config as cfg
 from hypothesis import strategies as st
 
 from pv import gen, codec
+from pv import scale
 from pv.probes import BOOM_KINDS
 from pv import catgen
 from pv.core import Sub, Fail, exc_fail
@@ -54,8 +55,12 @@ def sort_case(draw, tier):
     else:
         key = tuple(draw(st.lists(st.one_of(st.sampled_from(hdr), st.integers(0, nf - 1)), min_size=1,
                                   max_size=min(3, nf), unique_by=lambda s: s if isinstance(s, int) else hdr.index(s))))
+    # one case in ten at scale: hundreds / thousands of rows, chunk sizes that give a few hundred chunk files, or chunks
+    # of exactly 1000 rows
+    big = draw(scale.blowup(sizes=[130, 300, 600, 1001, 2049], wide=False)) if n else None
     # an int-looking field name such as '0' used by name is fine; an int key is always an index
     return {
+        "blowup": big, "big_buffersize": draw(st.sampled_from([None, 1000, 7, "n/300", "n/130", "n/2"])),
         "table": tbl, "key": key, "reverse": draw(st.booleans()),
         "buffersize": draw(gen.buffersizes(n)), "cache": draw(st.booleans()),
         "tempdir": draw(st.booleans()), "passes": draw(st.integers(1, 3)),
@@ -77,6 +82,16 @@ def _key_indices(hdr, key):
 def check_sort(case, ctx):
     tbl, key, reverse = case["table"], case["key"], case["reverse"]
     bs, cache = case["buffersize"], case["cache"]
+    if case.get("blowup"):
+        tbl = scale.apply(tbl, case["blowup"])
+        scale.label(ctx, case["blowup"])
+        nb = len(tbl) - 1
+        bb = case.get("big_buffersize")
+        # (never more than ~400 chunk files: every chunk is an open file during the merge)
+        bs = bb if not isinstance(bb, str) else max(1, nb // int(bb.split("/")[1]))
+        if bs is not None and bs < nb / 400.0:
+            bs = max(1, nb // 300)
+        case = dict(case, table=tbl, buffersize=bs, fail_first=None, upstream="none", passes=min(case["passes"], 2))
     n = len(tbl) - 1
     src = catgen.shape(codec.snapshot(tbl), case.get("form", "lists"))
     if case.get("form", "lists") != "lists":
